@@ -233,6 +233,12 @@ def judge_load(V, obs: dict, cover: set, expected: list[dict], manager, ever_wri
         obs['transfers_compared'] += 1
         if e['legacy']:
             obs['legacy_records'] += 1
+        if e.get('foreign'):
+            # written in the stored format of a previous version, not by the class under test
+            obs['foreign_records'] += 1
+            if e['remotely_queued'] and e['id'][2] == 'DOWNLOAD' and \
+                    expected_states(e) & {'QUEUED', 'INCOMPLETE'}:
+                obs['foreign_remotely_queued_downloads'] += 1
         w = {'transfer': list(e['id']), 'stored_state': e['state']}
         for f in FIELDS:
             if getattr(t, f, '<missing>') != e[f]:
@@ -487,7 +493,13 @@ def _write_pinned(cache_dir: str, transfers: list, legacy: set, protocol: int) -
 
 
 async def _run_sub(res: dict, rng: random.Random, base: str, plan: dict) -> dict:
-    """One list + history. Returns a description (for csig / sample)."""
+    """One list + history. Returns a description (for csig / sample).
+
+    The harness plays the application: it follows the list of transfers through what the
+    manager tells it (return of add() / remove(), TransferAddedEvent / TransferRemovedEvent)
+    in ``model``; the snapshot taken at a write is the snapshot of that list, wherever the
+    write happens (history step, or a persist-on-change listener inside a notification)."""
+    from aioslsk.events import TransferAddedEvent, TransferRemovedEvent
     from aioslsk.transfer.cache import TransferShelveCache
     V = Verdicts()
     obs = new_obs()
@@ -495,17 +507,108 @@ async def _run_sub(res: dict, rng: random.Random, base: str, plan: dict) -> dict
     cache_dir = os.path.join(base, 'cache')
     os.makedirs(cache_dir, exist_ok=True)
     os.makedirs(os.path.join(base, 'dl'), exist_ok=True)
-    desc: dict = {'list': [], 'history': [], 'special': plan.get('special')}
+    special = plan.get('special')
+    rng2: random.Random = plan.get('rng2') or random.Random(0)     # stream of the features added later
+    persist = plan.get('persist')                  # None | 'sync' | 'async': persist-on-change listener
+    p_cancel = float(plan.get('cancel_remove', 0.0))
+    p_pinned = float(plan.get('pinned', 0.0))
+    script = plan.get('script')
+    desc: dict = {'list': [], 'history': [], 'special': special, 'persist': persist,
+                  'cancel_remove': p_cancel > 0, 'pinned': p_pinned > 0}
 
     client = _make_client(base, cache_dir)
     mgr = client.transfers
     calls = wrap_notify(mgr)
     legacy: set = set()
     loaded_ids: set = set()        # id() of transfers that came out of a cache
-    ever_written: set = set()
+    ever_written: set = set()      # identities in any write before the last one
+    removed_ids: set = set()       # identities the application was told are removed
     removed_pool: list = []
+    model: list = []
+    keep: list = []                # strong references (the event bus keeps weak ones)
+    expected = None
+    ctx: dict = {'notified': None}
 
-    if plan.get('special') == 'fixture':
+    def write_now(how: str, protocol=None) -> bool:
+        nonlocal expected
+        if expected is not None:
+            ever_written.update(e['id'] for e in expected)
+        try:
+            if how == 'pinned':
+                expected = _write_pinned(cache_dir, list(model), legacy, protocol or 4)
+                obs['pinned_writes'] += 1
+            else:
+                expected = [snap(t, legacy=id(t) in legacy) for t in model]
+                _write(mgr, legacy, how)
+        except Exception as exc:  # noqa
+            V(f'write-exception:{type(exc).__name__}', exc=repr(exc)[:300], how=how,
+              transfers=[(list(ident(t)), t.state.VALUE.name) for t in mgr.transfers])
+            return False
+        obs['writes'] += 1
+        return True
+
+    async def write_async(how: str) -> bool:
+        nonlocal expected
+        if how == 'store_data' and not legacy:
+            if expected is not None:
+                ever_written.update(e['id'] for e in expected)
+            expected = [snap(t) for t in model]
+            try:
+                await mgr.store_data()
+            except Exception as exc:  # noqa
+                V(f'write-exception:{type(exc).__name__}', exc=repr(exc)[:300], how=how,
+                  transfers=[(list(ident(t)), t.state.VALUE.name) for t in mgr.transfers])
+                return False
+            obs['writes'] += 1
+            return True
+        return write_now(how, protocol=rng2.choice([3, 4]) if how == 'pinned' else None)
+
+    def attach_app(c):
+        keep.clear()
+
+        def on_added(event):
+            if not any(x is event.transfer for x in model):
+                model.append(event.transfer)
+            removed_ids.discard(ident(event.transfer))
+
+        def on_removed(event):
+            # "Emitted when a transfer has been detached from the client"
+            model[:] = [x for x in model if x is not event.transfer]
+            removed_ids.add(ident(event.transfer))
+            if ctx['notified'] is not None:
+                ctx['notified'].set()
+
+        c.events.register(TransferAddedEvent, on_added, priority=0)
+        c.events.register(TransferRemovedEvent, on_removed, priority=0)
+        keep.extend([on_added, on_removed])
+        if not persist:
+            return
+
+        def app_write(event):
+            obs['listener_writes'] += 1
+            if isinstance(event, TransferRemovedEvent):
+                obs['writes_inside_removal_notification'] += 1
+            write_now('write_cache')
+
+        if persist == 'sync':
+            def on_change(event):
+                app_write(event)
+        else:
+            k1, k2 = rng2.choice([0, 1, 3]), rng2.choice([0, 1, 2])
+
+            async def on_change(event):
+                for _ in range(k1):
+                    await asyncio.sleep(0)
+                app_write(event)
+                for _ in range(k2):
+                    await asyncio.sleep(0)
+        c.events.register(TransferAddedEvent, on_change, priority=100)
+        c.events.register(TransferRemovedEvent, on_change, priority=100)
+        keep.append(on_change)
+
+    n_rounds = 1
+    first_restart = False
+    if special == 'fixture':
         import aioslsk
         src = os.path.join(os.path.dirname(aioslsk.__file__), '..', '..', 'tests', 'unit', 'resources', 'data')
         if not os.path.exists(os.path.join(src, 'transfers.dat')):
@@ -519,35 +622,38 @@ async def _run_sub(res: dict, rng: random.Random, base: str, plan: dict) -> dict
                  'local_path': None, 'filesize': None, 'bytes_transfered': 0, 'fail_reason': None,
                  'place_in_queue': None, 'queue_attempts': 0, 'last_queue_attempt': 0.0,
                  'upload_request_attempts': 0, 'last_upload_request_attempt': 0.0, 'start_time': None,
-                 'complete_time': None}
+                 'complete_time': None, 'foreign': True}
             expected.append(e)
-        n_rounds = 1
         first_restart = True
         desc['list'] = [('VIRGIN', 'DOWNLOAD'), ('VIRGIN', 'UPLOAD')]
     else:
-        if plan.get('special') == 'minimal-collision':
-            ids, pairs = [('ab', 'c', 'DOWNLOAD'), ('a', 'bc', 'DOWNLOAD')], 1
+        attach_app(client)
+        if plan.get('ids'):
+            ids = [tuple(i) for i in plan['ids']]
+            pairs = 1 if special == 'minimal-collision' else 0
         else:
             n = rng.choice([0, 1, 1, 2, 2, 3, 3, 4, 5, 6, 7, 8, 8])
             ids, pairs = _gen_identities(rng, n)
         obs['collision_pairs'] += pairs
-        for i in ids:
-            st = 'QUEUED' if plan.get('special') == 'minimal-collision' else None
+        for k, i in enumerate(ids):
+            st = plan['states'][k] if plan.get('states') else None
             t = await _new_transfer(i, rng, base, state=st)
-            if plan.get('special') != 'minimal-collision' and rng.random() < 0.2:
+            if plan.get('rq'):
+                t.remotely_queued = True
+            if not special and rng.random() < 0.2:
                 legacy.add(id(t))
                 t.abort_reason = None
-            await mgr.add(t)
+            r_ = await mgr.add(t)
+            if not any(x is r_ for x in model):
+                model.append(r_)
             desc['list'].append((t.state.VALUE.name, i[2]))
-        n_rounds = 1 if plan.get('special') else rng.choice([1, 1, 2, 3])
-        expected = None
-        first_restart = False
+        n_rounds = len(script) if script else rng.choice([1, 1, 2, 3])
 
     async def mutate(k: int):
         for _ in range(k):
-            if not mgr.transfers:
+            if not model:
                 return
-            t = rng.choice(mgr.transfers)
+            t = rng.choice(model)
             if rng.random() < 0.6:
                 st, d = t.state.VALUE.name, t.direction.name
                 ops = [op for op in ALL_OPS if op_allowed(st, op, d)]
@@ -579,30 +685,70 @@ async def _run_sub(res: dict, rng: random.Random, base: str, plan: dict) -> dict
                 else:
                     t.increase_queue_attempts()
 
+    async def remove_cancelled(t):
+        """The task doing the removal is cancelled while a listener of the removal is awaited."""
+        ctx['notified'] = asyncio.Event()
+        long = rng2.random() < 0.5
+
+        async def slow(event):
+            if long:
+                await asyncio.sleep(30.0)
+            else:
+                for _ in range(3):
+                    await asyncio.sleep(0)
+
+        client.events.register(TransferRemovedEvent, slow, priority=rng2.choice([50, 150]))
+        task = asyncio.ensure_future(mgr.remove(t))
+        try:
+            await asyncio.wait_for(ctx['notified'].wait(), 5.0)
+        except asyncio.TimeoutError:
+            raise RuntimeError('harness: the removal was never notified')
+        finally:
+            ctx['notified'] = None
+        task.cancel()
+        try:
+            await task
+        except asyncio.CancelledError:
+            pass
+        client.events.unregister(TransferRemovedEvent, slow)
+        if task.cancelled():
+            obs['removals_cancelled_in_notification'] += 1
+
     async def remove(k: int):
         for _ in range(k):
-            if not mgr.transfers:
+            if not model:
                 return
-            t = rng.choice(mgr.transfers)
-            await mgr.remove(t)
+            t = rng.choice(model)
+            if p_cancel > 0 and rng2.random() < p_cancel:
+                await remove_cancelled(t)
+            else:
+                await mgr.remove(t)
+            obs['removals'] += 1
+            # the application was told / remove() returned
+            model[:] = [x for x in model if x is not t]
+            removed_ids.add(ident(t))
             legacy.discard(id(t))
             removed_pool.append(ident(t))
 
     async def add(k: int):
         for _ in range(k):
-            if len(mgr.transfers) >= 8:
+            if len(model) >= 8:
                 return
             if removed_pool and rng.random() < 0.5:
                 i = rng.choice(removed_pool)
             else:
                 i = (rng.choice(USERS), rng.choice(PATHS), rng.choice(['DOWNLOAD', 'UPLOAD']))
-            if any(ident(x) == i for x in mgr.transfers):
+            if any(ident(x) == i for x in model):
                 continue
             t = await _new_transfer(i, rng, base)
-            await mgr.add(t)
+            r_ = await mgr.add(t)
+            if not any(x is r_ for x in model):
+                model.append(r_)
+            removed_ids.discard(i)
 
     async def restart(final: bool):
         nonlocal client, mgr, calls, legacy, loaded_ids
+        gone = ever_written | removed_ids
         # the shelf itself
         try:
             raw = TransferShelveCache(cache_dir).read()
@@ -611,7 +757,7 @@ async def _run_sub(res: dict, rng: random.Random, base: str, plan: dict) -> dict
             raw = None
         if raw is not None:
             obs['cache_reads'] += 1
-            judge_set(V, expected, [ident(t) for t in raw], ever_written, 'cache.read')
+            judge_set(V, expected, [ident(t) for t in raw], gone, 'cache.read')
         new_client = _make_client(base, cache_dir)
         new_mgr = new_client.transfers
         new_calls = wrap_notify(new_mgr)
@@ -622,11 +768,14 @@ async def _run_sub(res: dict, rng: random.Random, base: str, plan: dict) -> dict
               stored=[(list(e['id']), e['state']) for e in expected])
             obs['lists_checked'] += 1
             return False
-        judge_load(V, obs, cover, expected, new_mgr, ever_written, 'lists')
+        judge_load(V, obs, cover, expected, new_mgr, gone, 'lists')
         obs['lists_checked'] += 1
         client, mgr, calls = new_client, new_mgr, new_calls
         legacy = set()
         loaded_ids = {id(t) for t in mgr.transfers}
+        model[:] = list(mgr.transfers)
+        removed_ids.clear()
+        attach_app(client)
         if final:
             # (i) a legal operation on every loaded transfer is reported to the manager
             for t in list(mgr.transfers):
@@ -664,8 +813,9 @@ async def _run_sub(res: dict, rng: random.Random, base: str, plan: dict) -> dict
         if not alive:
             break
         last = r == n_rounds - 1
-        if plan.get('special') == 'minimal-collision':
-            km = kr = ka = 0
+        step = script[r] if script else None
+        if step is not None:
+            km, kr, ka = step.get('km', 0), step.get('kr', 0), step.get('ka', 0)
         elif r == 0 and not first_restart:
             km, kr, ka = rng.choice([0, 0, 1]), 0, 0
         else:
@@ -674,21 +824,24 @@ async def _run_sub(res: dict, rng: random.Random, base: str, plan: dict) -> dict
         await remove(kr)
         await add(ka)
         how = rng.choice(['write_cache', 'write_cache', 'store_data', 'cache.write'])
-        try:
-            if how == 'store_data' and not legacy:
-                expected = [snap(t) for t in mgr.transfers]
-                await mgr.store_data()
-            else:
-                expected = _write(mgr, legacy, how)
-        except Exception as exc:  # noqa
-            V(f'write-exception:{type(exc).__name__}', exc=repr(exc)[:300],
-              transfers=[(list(ident(t)), t.state.VALUE.name) for t in mgr.transfers])
-            break
-        obs['writes'] += 1
-        shape = f"m{min(km, 1)}r{min(kr, 1)}a{min(ka, 1)}w"
         do_restart = last or rng.random() < 0.3
+        if step is not None:
+            how = step.get('how', 'write_cache')
+            skip_write = bool(step.get('skip_write'))
+        else:
+            # persist-on-change application: the process may end before any other write
+            skip_write = bool(persist) and expected is not None and obs['listener_writes'] > 0 and rng2.random() < 0.5
+            if do_restart and not skip_write and p_pinned > 0 and rng2.random() < p_pinned:
+                how = 'pinned'         # the cache was left behind by the previous version of the library
+        if skip_write:
+            obs['ends_after_listener_write'] += 1
+            shape = f"m{min(km, 1)}r{min(kr, 1)}a{min(ka, 1)}b"
+        else:
+            if not await write_async(how):
+                break
+            shape = f"m{min(km, 1)}r{min(kr, 1)}a{min(ka, 1)}" + ('P' if how == 'pinned' else 'w')
         if do_restart:
-            unsaved = not plan.get('special') and rng.random() < 0.25
+            unsaved = not special and rng.random() < 0.25
             if unsaved:
                 # the process goes on after its last periodic write
                 await mutate(rng.choice([1, 2]))
@@ -696,12 +849,7 @@ async def _run_sub(res: dict, rng: random.Random, base: str, plan: dict) -> dict
                 await add(rng.choice([0, 1]))
                 shape += 'u'
             alive = await restart(final=last)
-            for e in expected:
-                ever_written.add(e['id'])
             shape += 'R'
-        else:
-            for e in expected:
-                ever_written.add(e['id'])
         desc['history'].append(shape)
 
     for k, v in obs.items():
@@ -709,7 +857,8 @@ async def _run_sub(res: dict, rng: random.Random, base: str, plan: dict) -> dict
     for c in sorted(cover):
         runner.add_cover(res, 'persisted_states', c)
     desc['violations'] = sorted(V.items)
-    V.flush(res, list=desc['list'], history=desc['history'])
+    V.flush(res, list=desc['list'], history=desc['history'],
+            application={'persist_on_change': persist, 'cancels_removals': p_cancel > 0})
     return desc
 
 
@@ -734,11 +883,30 @@ def _run_lists(params: dict) -> dict:
     async def main(loop):
         for sub in range(n):
             rng = random.Random(f'{seed}:C17:L:{i}:{sub}')
-            plan: dict = {}
+            rng2 = random.Random(f'{seed}:C17:L2:{i}:{sub}')
+            plan: dict = {'rng2': rng2}
+            dl = ('peer', '@@abc\\dir\\file.bin', 'DOWNLOAD'), ('peer', '@@abc\\dir\\file2.bin', 'DOWNLOAD')
             if i == 0 and sub == 0:
-                plan['special'] = 'minimal-collision'
+                plan.update(special='minimal-collision', ids=[('ab', 'c', 'DOWNLOAD'), ('a', 'bc', 'DOWNLOAD')],
+                            states=['QUEUED', 'QUEUED'], script=[{}])
             elif i == 0 and sub == 1:
                 plan['special'] = 'fixture'
+            elif i == 0 and sub == 2:
+                # a cache left behind by the previous version: downloads the peer had accepted in its queue
+                plan.update(special='pinned-remotely-queued', ids=dl, states=['QUEUED', 'INCOMPLETE'], rq=True,
+                            script=[{'how': 'pinned'}])
+            elif i == 0 and sub == 3:
+                # persist-on-change application removes a transfer, the process ends without another write
+                plan.update(special='persist-remove-end', ids=dl, states=['QUEUED', 'QUEUED'], persist='sync',
+                            script=[{}, {'kr': 1, 'skip_write': True}])
+            elif i == 0 and sub == 4:
+                # the removal is cancelled while its notification is awaited, stop() writes the cache
+                plan.update(special='cancelled-removal', ids=[(u, p_, 'UPLOAD') for u, p_, _ in dl],
+                            states=['QUEUED', 'QUEUED'], cancel_remove=1.0, script=[{}, {'kr': 1, 'how': 'store_data'}])
+            else:
+                plan['persist'] = rng2.choice([None, None, None, 'sync', 'async'])
+                plan['cancel_remove'] = rng2.choice([0.0, 0.0, 0.5])
+                plan['pinned'] = rng2.choice([0.0, 0.3, 0.6])
             base = os.path.join(root, f's{sub}')
             os.makedirs(base)
             try:
@@ -750,7 +918,8 @@ def _run_lists(params: dict) -> dict:
             finally:
                 shutil.rmtree(base, ignore_errors=True)
             if desc['history']:
-                res['csigs'].append(f"lists|{sorted(desc['list'])}|{desc['history']}")
+                res['csigs'].append(f"lists|{sorted(desc['list'])}|{desc['history']}|{desc.get('persist')}|"
+                                    f"{desc.get('cancel_remove')}")
             if len(samples) < 2 and desc['list']:
                 samples.append(desc)
         return True
@@ -824,15 +993,33 @@ def _run_crash(params: dict) -> dict:
         'complete-both': rng.choice([0.0, 0.5, 30.0]),
         'random': rng.uniform(0.0, est * 1.2),
     }[phase]
+    # features added later draw from their own stream
+    rng3 = random.Random(f'{seed}:C17:crash2:{i}')
+    # 'pinned': the last write was done by the previous version of the library (its stored format)
+    fmt = 'pinned' if end == 'crash' and rng3.random() < 0.3 else 'current'
+    # the application persists on change: a listener on the transfer events calls write_cache()
+    app = None if fmt == 'pinned' else rng3.choice([None, None, 'sync', 'async'])
+    periodic = not (app and rng3.random() < 0.5)      # False: the process ends after the last listener write
+    user_remove = None
+    if 'dn' in victims and fmt == 'current' and rng3.random() < 0.25:
+        # the user removes the download at the instant; 'remove-cancelled': the task doing it is
+        # cancelled while the removal is being notified, then the client is stopped
+        user_remove = rng3.choice(['remove', 'remove', 'remove-cancelled'])
+        if user_remove == 'remove-cancelled':
+            end = 'stop'
+        elif app:
+            periodic = False
+    k_app = (rng3.choice([0, 1, 3]), rng3.choice([0, 1, 2]))
     source = make_source(('c17', seed, i), size)
     tm = TransferMonitor()
     V = Verdicts()
     obs = new_obs()
     cover: set = set()
     trace: list = []
-    info: dict = {'persisted': {}, 'loads': 0, 'at_end': {}, 'end_changes': []}
+    info: dict = {'persisted': {}, 'loads': 0, 'at_end': {}, 'end_changes': [], 'user_removed': None}
 
     async def main(w: World):
+        from aioslsk.events import TransferAddedEvent, TransferProgressEvent, TransferRemovedEvent
         from aioslsk.shares.cache import SharesShelveCache
         from aioslsk.transfer.cache import TransferShelveCache
         loop = w.loop
@@ -858,17 +1045,58 @@ def _run_crash(params: dict) -> dict:
         st = {'armed': True, 'fired': False, 'restarted': False, 'cut_used': False}
         fired = asyncio.Event()
 
+        removed_model: dict = {}  # name -> id() of the transfers the application was told are removed
+        removed_idents: dict = {}
+
         def wrap_write(name, mgr):
             orig = mgr.write_cache
 
             def write_cache():
-                snaps[name] = [snap(t) for t in mgr.transfers]
+                gone = removed_model.get(name, ())
+                snaps[name] = [snap(t) for t in mgr.transfers if id(t) not in gone]
                 trace.append((round(w.now, 4), 'write', name, [(e['id'][2][0], e['state']) for e in snaps[name]]))
                 return orig()
             mgr.write_cache = write_cache
 
+        def attach_app(name, h):
+            """The application side of a client: follows removals; optionally persists on change."""
+            mgr = h.client.transfers
+            removed_model[name] = set()
+            removed_idents[name] = set()
+
+            def on_removed(event):
+                removed_model[name].add(id(event.transfer))
+                removed_idents[name].add(ident(event.transfer))
+                if st.get('removal_notified') is not None:
+                    st['removal_notified'].set()
+            h.listen(TransferRemovedEvent, on_removed)           # priority 0
+            if not app:
+                return
+
+            def app_write(event):
+                obs['listener_writes_live'] += 1
+                try:
+                    mgr.write_cache()
+                except Exception as exc:  # noqa
+                    V(f'write-exception:{type(exc).__name__}', exc=repr(exc)[:300], who=name, where='listener')
+
+            if app == 'sync':
+                def on_change(event):
+                    app_write(event)
+            else:
+                async def on_change(event):
+                    for _ in range(k_app[0]):
+                        await asyncio.sleep(0)
+                    app_write(event)
+                    for _ in range(k_app[1]):
+                        await asyncio.sleep(0)
+            h._listeners.append(on_change)
+            for cls_ in (TransferAddedEvent, TransferRemovedEvent, TransferProgressEvent):
+                h.client.events.register(cls_, on_change, priority=100)
+
         for n_ in ('up', 'dn'):
             wrap_write(n_, w.clients[n_].client.transfers)
+            attach_app(n_, w.clients[n_])
 
         def cur_dn():
             h = w.clients.get('dn')
@@ -896,12 +1124,19 @@ def _run_crash(params: dict) -> dict:
                     fc.conn.plan.cut_dir, fc.conn.plan.cut_after, fc.conn.plan.cut_mode = d, fc.prefix[d] + k, 'rst'
         pair.cls.on_offset = on_offset
 
-        def do_write():
-            """The last periodic write of the victims (end == 'crash')."""
-            for name in victims:
+        def do_write(names):
+            """The last periodic write (end == 'crash')."""
+            for name in names:
                 mgr = w.clients[name].client.transfers
                 try:
-                    mgr.write_cache()
+                    if fmt == 'pinned':
+                        live = [t for t in mgr.transfers if id(t) not in removed_model.get(name, ())]
+                        snaps[name] = _write_pinned(dirs[name], live, set(), rng3.choice([3, 4]))
+                        obs['crash_pinned_writes'] += 1
+                        trace.append((round(w.now, 4), 'write-pinned', name,
+                                      [(e['id'][2][0], e['state'], e['remotely_queued']) for e in snaps[name]]))
+                    else:
+                        mgr.write_cache()
                 except Exception as exc:  # noqa
                     V(f'write-exception:{type(exc).__name__}', exc=repr(exc)[:300], who=name)
 
@@ -913,8 +1148,8 @@ def _run_crash(params: dict) -> dict:
             for name in victims:
                 info['at_end'][name] = [(t.direction.name[0], state_name(t))
                                         for t in w.clients[name].client.transfers.transfers]
-            if end == 'crash':
-                do_write()
+            if end == 'crash' and periodic and not user_remove:
+                do_write(victims)
             fired.set()
 
         def trigger():
@@ -986,7 +1221,37 @@ def _run_crash(params: dict) -> dict:
                 await asyncio.sleep(0.0005)
             return False
 
+        if user_remove and cur_dn() is not None:
+            h = w.clients['dn']
+            t = cur_dn()
+            info['user_removed'] = list(ident(t))
+            if user_remove == 'remove-cancelled':
+                st['removal_notified'] = asyncio.Event()
+
+                async def slow(event):
+                    await asyncio.sleep(30.0)
+                h._listeners.append(slow)
+                h.client.events.register(TransferRemovedEvent, slow, priority=rng3.choice([50, 150]))
+                task = w.spawn('dn', h.client.transfers.remove(t), name='vf-user-remove')
+                waiter = asyncio.ensure_future(st['removal_notified'].wait())
+                await asyncio.wait([task, waiter], timeout=120.0, return_when=asyncio.FIRST_COMPLETED)
+                waiter.cancel()
+                if not st['removal_notified'].is_set() and not task.done():
+                    raise RuntimeError('harness: the removal was never notified')
+                task.cancel()
+                await asyncio.gather(task, return_exceptions=True)
+                if task.cancelled():
+                    obs['user_removals_cancelled_live'] += 1
+                st['removal_notified'] = None
+                # the application was told the transfer is removed
+                removed_model['dn'].add(id(t))
+                removed_idents['dn'].add(ident(t))
+            else:
+                await h.call(h.client.transfers.remove(t))
+            obs['user_removals_live'] += 1
+            trace.append((round(w.now, 4), 'user-removed', user_remove))
         if end == 'crash':
+            do_write([n_ for n_ in victims if n_ not in snaps or (periodic and user_remove)])
             if lag > 0:
                 await asyncio.sleep(lag)
             if not await kill(victims):
@@ -1032,6 +1297,7 @@ def _run_crash(params: dict) -> dict:
             mgr = h.client.transfers
             notify[name] = wrap_notify(mgr)
             expected = snaps.pop(name)
+            gone = removed_idents.pop(name, set())
             orig_load = mgr.load_data
 
             async def load_data():
@@ -1041,7 +1307,8 @@ def _run_crash(params: dict) -> dict:
                     V(f'load-exception:{type(exc).__name__}', where='load_data', who=name, exc=repr(exc)[:300],
                       stored=[(list(e['id']), e['state']) for e in expected])
                     raise
-                judge_load(V, obs, cover, expected, mgr, set(), f'{end}:{name}')
+                judge_load(V, obs, cover, expected, mgr, gone, f'{end}:{name}')
+                attach_app(name, h)                    # the new application instance
                 edge_base[name] = len(tm_edge_ids)     # read_cache's own repair edges precede add()
                 obs['crash_loads_judged'] += 1
                 info['loads'] += 1
@@ -1070,7 +1337,7 @@ def _run_crash(params: dict) -> dict:
             ups = h.client.transfers.transfers if h is not None else []
             return (t is not None and state_name(t) == 'COMPLETE' and len(ups) >= 1 and
                     all(state_name(u) == 'COMPLETE' for u in ups))
-        ok = await wait_until(done, PROGRESS_BOUND, step=2.0)
+        ok = await wait_until(done, 30.0 if info['user_removed'] else PROGRESS_BOUND, step=2.0)
         await settle(2.0)
         t = cur_dn()
         ups = w.clients['up'].client.transfers.transfers
@@ -1093,6 +1360,7 @@ def _run_crash(params: dict) -> dict:
             'both_complete': bool(ok), 'dn_state': state_name(t) if t is not None else None,
             'up_states': [state_name(u) for u in ups], 'virtual_s': round(w.now, 1), 't_end': round(t_end, 3),
             'dn_remotely_queued': t.remotely_queued if t is not None else None,
+            'user_removed': info['user_removed'],
         }
         # ---- orderly stop: the cache written by stop() is loaded once more --------
         tm.edge_hooks.clear()
@@ -1108,7 +1376,7 @@ def _run_crash(params: dict) -> dict:
                 V(f'load-exception:{type(exc).__name__}', where='load_data after stop()', who=name,
                   exc=repr(exc)[:300])
                 continue
-            judge_load(V, obs, cover, expected, c3.transfers, set(), f'final-stop:{name}')
+            judge_load(V, obs, cover, expected, c3.transfers, removed_idents.get(name, set()), f'final-stop:{name}')
             obs['crash_loads_judged'] += 1
         return final
 
@@ -1123,12 +1391,15 @@ def _run_crash(params: dict) -> dict:
         return res
     final = out.result or {}
     ctx = {'phase': phase, 'end': end, 'who': who, 'size': size, 'limits': limits, 'cut_k': cut_k, 'lag': lag,
-           'downtime': downtime, 'persisted': info['persisted']}
+           'downtime': downtime, 'persisted': info['persisted'], 'last_write_format': fmt,
+           'persist_on_change': app, 'periodic_write_at_end': periodic, 'user_remove': user_remove}
     V.flush(res, run=ctx, trace=trace[-40:])
     for k, v in obs.items():
         runner.add_obs(res, k, v)
     runner.add_obs(res, 'crash_runs', 1)
-    if final.get('resumed_complete'):
+    if final.get('user_removed'):
+        runner.add_obs(res, 'user_removed_runs', 1)
+    elif final.get('resumed_complete'):
         runner.add_obs(res, 'resumed_complete', 1)
     elif 'resumed_complete' in final:
         runner.add_obs(res, 'not_resumed', 1)
@@ -1145,7 +1416,9 @@ def _run_crash(params: dict) -> dict:
         runner.add_cover(res, 'passive_safety_sigs', sig)
     runner.add_obs(res, 'passive_c03_reports', len(tm.violations))
     runner.add_cover(res, 'phases', f'{phase}/{end}/{who}')
+    runner.add_cover(res, 'crash_features', f'{fmt}/app={app}/periodic={periodic}/{user_remove}')
     if info['loads']:
-        res['csigs'].append(f"crash|{end}|{who}|{sorted(info['persisted'].items())}|cut={cut_k is not None}")
+        res['csigs'].append(f"crash|{end}|{who}|{sorted(info['persisted'].items())}|cut={cut_k is not None}|"
+                            f"{fmt}|{app}|{periodic}|{user_remove}")
     res['sample'] = {'kind': 'crash', **ctx, 'final': final, 'trace': trace[:40]}
     return res
